@@ -1,4 +1,5 @@
 import BarterModel.Lemmas.Channels
+import BarterModel.Props.C10
 /-!
 # C10C (sub-check of C10) — channels, droppable transmitters, snapshot+updates pairs, merged streams,
 and the run loops that feed the audit stream
@@ -68,6 +69,22 @@ theorem iterator_agrees_with_stream {α : Type} (c : Chan α) :
       | _, _ => False) := by
   rcases c with ⟨q, n, r⟩
   cases q <;> by_cases hn : n = 0 <;> simp [Chan.iterNext, Chan.tryRecv, Chan.pollNext, hn]
+
+/-- The bare channel (any number of transmitter handles) refines the log-with-cursor stream operation
+by operation: `send` gives the same verdict, cloning / dropping handles and dropping the receiver act
+alike, and a receiver poll yields the same result — the next unread item of the log, the end when no
+transmitter is left, pending otherwise. (`ChanRel c got t`: `t` describes `c` with `got` already read.) -/
+theorem chan_refines_spec_stepwise {α : Type} {c : Chan α} {got : List α} {t : SpecChan α}
+    (h : ChanRel c got t) (x : α) :
+    ChanRel (Chan.new : Chan α) [] SpecChan.new ∧
+    (ChanRel (c.send x).1 got (t.send x).1 ∧ (c.send x).2 = (t.send x).2) ∧
+    ChanRel c.cloneTx got { t with senders := t.senders + 1 } ∧
+    ChanRel c.dropTx got { t with senders := t.senders - 1 } ∧
+    ChanRel c.dropRx got { t with listening := false } ∧
+    (c.rxAlive = true → c.pollNext.2 = t.read.2 ∧
+      ChanRel c.pollNext.1 (match c.pollNext.2 with | .item x => got ++ [x] | _ => got) t.read.1) :=
+  ⟨chanRel_new, chanRel_send h x, (chanRel_handles h).1, (chanRel_handles h).2.1, (chanRel_handles h).2.2,
+    chanRel_recv h⟩
 
 /-! ## §2 `ChannelTxDroppable` over any `Tx` -/
 
@@ -185,6 +202,26 @@ theorem new_disabled_receives_nothing {α : Type} (ops : List (Op α)) :
     | disabled => rfl
     | active => rw [hd] at this; cases this
 
+/-- The receiver sees the end of the stream only after the transmitter has gone off, and by then it has
+read every item that was ever accepted: a consumer that reads to the end misses nothing that was delivered. -/
+theorem end_means_complete {α : Type} (ops : List (Op α))
+    (h : ((Sys.init .active : Sys α).run ops).sawEnd = true) :
+    ((Sys.init .active : Sys α).run ops).d = .disabled ∧
+    ((Sys.init .active : Sys α).run ops).got = acceptedOf ops := by
+  have r := refines_spec (α := α) .active ops
+  have hinv := specInv_run ops (specInv_init (α := α) (DState.active == DState.active))
+  have hlog : ((SpecSys.init (α := α) (DState.active == DState.active)).run ops).ch.log = acceptedOf ops := by
+    have := (spec_run_live ops (SpecSys.init (α := α) true) rfl rfl).1
+    rwa [show (SpecSys.init (α := α) true).ch.log = [] from rfl, List.nil_append] at this
+  have he := hinv.ended (by rw [r.sawEnd]; exact h)
+  refine ⟨?_, ?_⟩
+  · have := r.live
+    rw [he.1] at this
+    cases hd : ((Sys.init .active : Sys α).run ops).d with
+    | disabled => rfl
+    | active => rw [hd] at this; cases this
+  · rw [← r.got, SpecChan.got, he.2, List.take_length, hlog]
+
 /-! ## §4 `Snapshot`, `SnapUpdates` -/
 
 theorem snapshot_map_id {α : Type} (s : Snapshot α) : s.map id = s := rfl
@@ -258,6 +295,22 @@ theorem merge_is_flat_machine {β : Type} (cL cR : Chan β) (af : Bool) :
     (MergedSt.new Chan.new Chan.new : MSt β) = MSt.live Chan.new Chan.new true ∧
     MSt.poll (none : MSt β) = (none, .done) :=
   ⟨poll_live cL cR af, rfl, rfl⟩
+
+/-- Cross-check with C12: the flat merge machine of `Model/Streams.lean` (`MergeSt.poll`, written by hand
+for C12's `merge_order` theorems) and this file's composition of tokio-stream combinators simulate each
+other — from the initial states, every send on an open input, every transmitter drop and every poll keeps
+them related, and every poll gives the same result (up to C12's input tag). So C12's merge theorems hold
+for the combinator-level model too, and vice versa. -/
+theorem merge_agrees_with_C12_model {st : MSt Nat} {m : BarterModel.Streams.MergeSt} (h : C12Rel st m)
+    (left : Bool) (x : Nat) :
+    C12Rel (MergedSt.new Chan.new Chan.new) BarterModel.Streams.MergeSt.init ∧
+    ((MSt.poll st).2 = untag m.poll.2 ∧ C12Rel (MSt.poll st).1 m.poll.1) ∧
+    ((m.side left).closed = false →
+      C12Rel (match st.chan left with | some c => st.setChan left (c.send x).1 | none => st)
+        (m.step (.send left x)).1) ∧
+    C12Rel (match st.chan left with | some c => st.setChan left c.dropTx | none => st)
+      (m.step (.close left)).1 :=
+  ⟨c12_init, c12_poll h, c12_send h left x, c12_close h left⟩
 
 /-- Every run of the merged stream stays in one of two shapes (`MShape`): two live receivers with
 untouched end markers, or ended with both receivers dropped. -/
@@ -384,6 +437,12 @@ theorem shutdown_record_is_last {ε ι κ : Type} (E : Runner ε ι κ) (e : ε)
       · simpa using hterm
       · exact ih _ t ht
 
+/-- The loop processes events only up to the first terminal record: at most one record per event, plus
+the `FeedEnded` one. -/
+theorem at_most_one_record_per_event {ε ι κ : Type} (E : Runner ε ι κ) (e : ε) (feed : List ι) :
+    0 < (runTicks E e feed).length ∧ (runTicks E e feed).length ≤ feed.length + 1 :=
+  ⟨runTicks_length_pos E e feed, runTicks_length_le E e feed⟩
+
 /-- A consumer that reads everything and drops its receiver while the loop waits for its `K`-th event
 holds exactly the first `K` records (all of them if the loop ends earlier), in order; the transmitter
 ends up disabled iff a record was produced after the drop. -/
@@ -441,6 +500,24 @@ theorem run_loop_is_C10_model (s : BarterModel.Audit.EngA)
     runTicks auditRunner s feed = (BarterModel.Audit.runWithAudit s feed).2 ∧
     (runPlain auditRunner s feed).1 = (BarterModel.Audit.runWithAudit s feed).1 :=
   auditRunner_agrees s feed
+
+/-- With C10's `consecutive`: an audit consumer whose receiver is dropped while the engine waits for its
+`K`-th event holds exactly the first `K` records of the C10 audit stream, and their sequence numbers are
+`s.seq, s.seq + 1, …` without gap or repetition. -/
+theorem audit_consumer_holds_consecutive_prefix (K : Nat) (s : BarterModel.Audit.EngA)
+    (feed : List (BarterModel.Engine.Event × BarterModel.Audit.Ask)) :
+    let a := runAudited auditRunner worldTx (dropEnv K) 0 s .active (Chan.new, []) feed
+    a.world.2 ++ a.world.1.queue = (BarterModel.Audit.runWithAudit s feed).2.take K ∧
+    (a.world.2 ++ a.world.1.queue).map BarterModel.Audit.Tick.seq =
+      List.range' s.seq (min K (BarterModel.Audit.runWithAudit s feed).2.length) := by
+  intro a
+  have h := rundrop_receives_exact_prefix auditRunner K s feed
+  have hl := (auditRunner_agrees s feed).1
+  have hc := (BarterModel.Props.C10.consecutive s feed).1
+  have h1 : a.world.2 ++ a.world.1.queue = (BarterModel.Audit.runWithAudit s feed).2.take K := by
+    rw [← hl]; exact h.1
+  refine ⟨h1, ?_⟩
+  rw [h1, List.map_take, hc, take_range'']
 
 /-! ## Non-vacuity -/
 
